@@ -7,6 +7,7 @@ pub mod timer;
 pub mod fall;
 pub mod conc;
 pub mod text;
+pub mod pb;
 use crate::Area;
 pub fn lookup(name: &str) -> Option<Box<dyn Area>> {
     match name {
@@ -18,6 +19,7 @@ pub fn lookup(name: &str) -> Option<Box<dyn Area>> {
         "timer" => Some(Box::new(timer::TimerArea)),
         "fall" => Some(Box::new(fall::FallArea)),
         "text" => Some(Box::new(text::TextArea)),
+        "pb" => Some(Box::new(pb::PbArea)),
         "catom" => Some(Box::new(conc::ConcAtomic { kinds: &["counter", "intcounter", "gauge", "intgauge"] })),
         "catomc" => Some(Box::new(conc::ConcAtomic { kinds: &["counter", "intcounter"] })),
         "catomg" => Some(Box::new(conc::ConcAtomic { kinds: &["gauge", "intgauge"] })),
